@@ -658,6 +658,7 @@ func (g *gen) tables() {
 		sb.WriteString(fmt.Sprintf("(%s, %s, %s, %s, %v)", coqStr(r.tag), coqStr(typ), coqList(vals), coqList(declared), ok))
 	}
 	sb.WriteString("].\n\n")
+	sb.WriteString("Definition enum_sets : list (string * list string) := map (fun r => let '(t, _, acc, _, _) := r in (t, acc)) enum_tables.\n\n")
 
 	// ---- every payload field with its tags (by reflection, reachable from the features)
 	var rows []fieldRow
@@ -753,3 +754,105 @@ func (g *gen) tables() {
 
 func profiles16() []*ocpp.Profile  { return profiles.V16() }
 func profiles201() []*ocpp.Profile { return profiles.V201() }
+
+// ---- schema trees (gen/Schemas.v) ----------------------------------------------------------
+
+func shortType(t reflect.Type) string {
+	pp := t.PkgPath()
+	return pp[strings.LastIndexByte(pp, '/')+1:] + "." + t.Name()
+}
+
+func isDateTime(t reflect.Type) bool {
+	return t.Kind() == reflect.Struct && t.Name() == "DateTime" && strings.HasSuffix(t.PkgPath(), "/types")
+}
+
+func coqTags(v string) string {
+	if v == "" {
+		return "[]"
+	}
+	var parts []string
+	for _, p := range strings.Split(v, ",") {
+		n, a := p, ""
+		if k := strings.IndexByte(p, '='); k >= 0 {
+			n, a = p[:k], p[k+1:]
+		}
+		parts = append(parts, fmt.Sprintf("(%s, %s)", coqStr(n), coqStr(a)))
+	}
+	return "[" + strings.Join(parts, "; ") + "]"
+}
+
+func (g *gen) coqKind(t reflect.Type, depth int, stack map[reflect.Type]bool) string {
+	if isDateTime(t) {
+		return "KTime"
+	}
+	switch t.Kind() {
+	case reflect.String:
+		return "KString"
+	case reflect.Int, reflect.Int8, reflect.Int16, reflect.Int32, reflect.Int64, reflect.Uint, reflect.Uint8, reflect.Uint16, reflect.Uint32, reflect.Uint64:
+		return "KInt"
+	case reflect.Float32, reflect.Float64:
+		return "KFloat"
+	case reflect.Bool:
+		return "KBool"
+	case reflect.Interface:
+		return "KAny"
+	case reflect.Ptr:
+		return "(KPtr " + g.coqKind(t.Elem(), depth, stack) + ")"
+	case reflect.Slice, reflect.Array:
+		return "(KSlice " + g.coqKind(t.Elem(), depth, stack) + ")"
+	case reflect.Struct:
+		if stack[t] || depth > 12 {
+			g.fail("recursive or too deep payload type %s", t)
+			return "KAny"
+		}
+		stack[t] = true
+		defer delete(stack, t)
+		var fs []string
+		for i := 0; i < t.NumField(); i++ {
+			f := t.Field(i)
+			if f.PkgPath != "" {
+				continue
+			}
+			fs = append(fs, fmt.Sprintf("(%s, %s, %s)", coqStr(f.Name), coqTags(f.Tag.Get("validate")), g.coqKind(f.Type, depth+1, stack)))
+		}
+		return fmt.Sprintf("(KStruct %s [%s])", coqStr(shortType(t)), strings.Join(fs, ";\n      "))
+	}
+	g.fail("unsupported kind %s", t.Kind())
+	return "KAny"
+}
+
+func (g *gen) schemas() {
+	var sb strings.Builder
+	sb.WriteString("(** Generated by tools/cmd/extract: the payload type of every request and response as a schema tree. Do not edit. *)\n")
+	sb.WriteString("From Coq Require Import String List.\nImport ListNotations.\nFrom Verif Require Import M2.Validator.\nOpen Scope string_scope.\n\n")
+	var names []string
+	idx := 0
+	for _, v := range []struct {
+		name string
+		ps   []*ocpp.Profile
+	}{{"16", profiles16()}, {"201", profiles201()}} {
+		for _, p := range v.ps {
+			var fn []string
+			for n := range p.Features {
+				fn = append(fn, n)
+			}
+			sort.Strings(fn)
+			for _, n := range fn {
+				f := p.Features[n]
+				for di, t := range []reflect.Type{f.GetRequestType(), f.GetResponseType()} {
+					dn := "req"
+					if di == 1 {
+						dn = "resp"
+					}
+					id := fmt.Sprintf("schema_%d", idx)
+					idx++
+					sb.WriteString(fmt.Sprintf("Definition %s : kind := %s.\n", id, g.coqKind(t, 0, map[reflect.Type]bool{})))
+					names = append(names, fmt.Sprintf("(%s, %s)", coqStr(v.name+"/"+n+"/"+dn), id))
+				}
+			}
+		}
+	}
+	sb.WriteString("\nDefinition schemas : list (string * kind) := [\n  " + strings.Join(names, ";\n  ") + "].\n")
+	g.writeIfChanged("Schemas.v", sb.String())
+	g.params["schemas"] = idx
+}
